@@ -429,6 +429,12 @@ def check_c15(seed, tier):
             name = pol + (f"_scan{scan[1]}" if scan else "")
             if list(t["imagery"].children) != [name]:
                 viol.append({"case": case, "what": f"/imagery children {list(t['imagery'].children)} != [{name!r}]"})
+            # decoding is a function of the identifier alone: the same product opened again is named the same
+            t2 = _open(path, records_per_chunk=rng.choice([1, 2, 1024]))
+            if list(t2["imagery"].children) != [name] or dict(t2["summary/product_specification"].attrs) != dict(ps) \
+                    or dict(t2["summary/scene_specification"].attrs) != dict(ss):
+                viol.append({"case": {**case, "history": "opened twice in one process"},
+                             "what": f"second open of the same product: /imagery children {list(t2['imagery'].children)} (expected [{name!r}]), or summary attributes differ"})
             if len(samples) < 1:
                 samples.append({"product_id": pid, "scene": scene, "group": name})
         except Exception as e:  # noqa: BLE001
@@ -502,6 +508,37 @@ def check_c15(seed, tier):
             pass
         except Exception as e:  # noqa: BLE001
             viol.append({"case": {"decoder": kind, "string": s_}, "what": f"raised {type(e).__name__} instead of ValueError"})
+    # every decoder is a function of its argument alone: repeated and interleaved calls on the same identifier agree
+    import copy
+    for _ in range(40 if tier == "quick" else 600):
+        pid = rng.choice(ids)
+        scene_ok = f"ALOS2{rng.randint(0, 99999):05d}{rng.randint(0, 9999):04d}-{rng.randint(14, 49):02d}{rng.randint(1, 12):02d}{rng.randint(1, 28):02d}"
+        scan_ok = rng.choice("BF") + str(rng.randint(0, 9))
+        pol = rng.choice(["HH", "HV", "VH", "VV"])
+        fn = f"IMG-{pol}-{scene_ok}-{pid}" + rng.choice(["", "-" + scan_ok])
+        want_group = pol + (f"_scan{scan_ok[1]}" if fn.endswith(scan_ok) else "")
+        evals += 1
+        distinct.add(("repeat", fn))
+        try:
+            seq = []
+            for step in rng.choice([["filename", "groupname", "filename", "groupname", "filename"],
+                                    ["groupname", "groupname", "filename", "groupname"],
+                                    ["filename", "filename", "groupname", "filename", "groupname", "groupname"]]):
+                seq.append((step, copy.deepcopy(fns[step](fn))))
+            for arg, kind in ((scene_ok, "scene_id"), (pid, "product_id"), (scan_ok, "scan_info")):
+                seq.append((kind, copy.deepcopy(fns[kind](arg))))
+                seq.append((kind, copy.deepcopy(fns[kind](arg))))
+            by_kind = {}
+            for kind, r in seq:
+                by_kind.setdefault(kind, []).append(r)
+            for kind, rs in by_kind.items():
+                if any(r != rs[0] for r in rs[1:]):
+                    viol.append({"case": {"decoder": kind, "string": fn, "calls": [k for k, _ in seq]},
+                                 "what": f"{kind} of the same identifier gives different results on repeated calls: {rs[0]!r} then {[r for r in rs if r != rs[0]][0]!r}"[:400]})
+            if any(g != want_group for g in by_kind["groupname"]):
+                viol.append({"case": {"decoder": "groupname", "string": fn}, "what": f"group name {by_kind['groupname']} != {want_group!r}"})
+        except Exception as e:  # noqa: BLE001
+            viol.append({"case": {"string": fn}, "what": f"valid identifier rejected: {type(e).__name__}: {e}"[:200]})
     # unique group name per (polarisation, scan)
     names = {}
     for pol in ["HH", "HV", "VH", "VV"]:
